@@ -326,7 +326,7 @@ pub fn sample_valid(defs: &Map<String, Value>, s: &Value, depth: usize) -> Value
                 json!(vec![item; n])
             }
         }
-        Some("object") | None if s.get("properties").is_some() || s.get("type").is_some() => {
+        Some("object") | None if s.get("properties").is_some() || s.get("required").is_some() || s.get("type").is_some() => {
             let mut o = Map::new();
             if let Some(p) = s.get("properties").and_then(|p| p.as_object()) {
                 for (k, ps) in p {
@@ -337,6 +337,19 @@ pub fn sample_valid(defs: &Map<String, Value>, s: &Value, depth: usize) -> Value
                 if let Some(ap) = s.get("additionalProperties") {
                     if ap.is_object() {
                         o.insert("k".into(), sample_valid(defs, ap, depth + 1));
+                    }
+                }
+            }
+            // required keys that have no schema of their own: a value the additionalProperties schema
+            // accepts (anything at all if there is none)
+            for k in s.get("required").and_then(|r| r.as_array()).cloned().unwrap_or_default() {
+                if let Some(k) = k.as_str() {
+                    if !o.contains_key(k) {
+                        let v = match s.get("additionalProperties") {
+                            Some(ap) if ap.is_object() => sample_valid(defs, ap, depth + 1),
+                            _ => json!(1),
+                        };
+                        o.insert(k.to_string(), v);
                     }
                 }
             }
@@ -433,6 +446,14 @@ fn probes_derived(defs: &Map<String, Value>, s: &Value, depth: usize, out: &mut 
             let mut with = vo.clone();
             with.insert("zz_extra".into(), extra);
             out.push(Value::Object(with));
+        }
+        // pass 0: each required key absent (also keys that have no schema of their own under `properties`)
+        for k in o.get("required").and_then(|r| r.as_array()).cloned().unwrap_or_default() {
+            if let Some(k) = k.as_str() {
+                let mut without = vo.clone();
+                without.remove(k);
+                out.push(Value::Object(without));
+            }
         }
         if let Some(props) = props {
             // pass 1: each property absent
